@@ -1113,7 +1113,189 @@ def stage_determinism(work, tier, seed):
             "samples": [dict(id=e["id"], via=e["via"], out=e["out"]) for e in events[:300:97]]}
 
 
-STAGES = {"determinism": stage_determinism, "regen": stage_regen, "pipeline": stage_pipeline, "lex": stage_lex, "resolve": stage_resolve, "prec": stage_prec, "tables": stage_tables, "lr": stage_lr, "mci_lr": stage_mci_lr, "glr": stage_glr}
+
+def render_doc(doc):
+    def meta_str(m):
+        parts = []
+        if m["assoc"]:
+            parts.append(m["assoc"])
+        if m["prio"] >= 0:
+            parts.append(str(m["prio"]))
+        if m["nops"]:
+            parts.append("nops")
+        if m["nopse"]:
+            parts.append("nopse")
+        if m["kind"]:
+            parts.append(m["kind"])
+        return (" {" + ", ".join(parts) + "}") if parts else ""
+    out = []
+    for r in doc["rules"]:
+        alts = []
+        for a in r["alts"]:
+            syms = []
+            for x in a["syms"]:
+                t = ("'%s'" % x["ref"]) if x["str"] else x["ref"]
+                t += x["op"]
+                if x["sep"]:
+                    t += "[%s]" % x["sep"]
+                syms.append(t)
+            alts.append((" ".join(syms) if syms else "EMPTY") + meta_str(a["meta"]))
+        out.append("%s%s: %s;" % (r["name"], meta_str(r["meta"]), " | ".join(alts)))
+    out.append("terminals")
+    for t in doc["terms"]:
+        out.append("%s: %s;" % (t["name"], ("'%s'" % t["str"]) if t["str"] else "/\\d+/"))
+    return "\n".join(out) + "\n"
+
+
+NOMETA = dict(prio=-1, assoc="", nops=False, nopse=False, kind="")
+
+
+def random_doc(rng):
+    terms = [dict(name="Ta", str="a"), dict(name="Tb", str="b"), dict(name="Tc", str="c"),
+             dict(name="Comma", str=","), dict(name="Num", str="")]
+    nr = rng.randint(1, 3)
+    names = ["R%d" % i for i in range(nr)]
+
+    def meta(p):
+        m = dict(NOMETA)
+        if rng.random() < p:
+            m["assoc"] = rng.choice(["left", "right"])
+        if rng.random() < p:
+            m["prio"] = rng.choice([1, 5, 20])
+        if rng.random() < p / 2:
+            m["nops"] = True
+        if rng.random() < p / 2:
+            m["nopse"] = True
+        return m
+    rules = []
+    for ri, n in enumerate(names):
+        alts = []
+        for ai in range(rng.randint(1, 3)):
+            syms = []
+            for _ in range(rng.randint(0, 3)):
+                c = rng.random()
+                if c < 0.2:
+                    x = dict(ref=rng.choice(["a", "b", "c"]), str=True, op="", sep="")
+                elif c < 0.7:
+                    x = dict(ref=rng.choice(["Ta", "Tb", "Tc", "Num"]), str=False, op="", sep="")
+                else:
+                    later = names[ri + 1:] or ["Tb"]
+                    x = dict(ref=rng.choice(later), str=False, op="", sep="")
+                if rng.random() < 0.4:
+                    x["op"] = rng.choice(["?", "*", "+"])
+                    if x["op"] in "*+" and rng.random() < 0.4:
+                        x["sep"] = rng.choice(["Comma", "Tc"])
+                syms.append(x)
+            if not syms and rng.random() < 0.5:
+                syms = [dict(ref="EMPTY", str=False, op="", sep="")]
+            m = meta(0.35)
+            if rng.random() < 0.25:
+                m["kind"] = rng.choice(["Aa", "Bb", "Cc"])
+            alts.append(dict(syms=syms, meta=m))
+        rules.append(dict(name=n, meta=meta(0.3), alts=alts))
+    return dict(rules=rules, terms=terms)
+
+
+CURATED_DOCS = []
+
+
+def _cd(name, rules):
+    terms = [dict(name="Ta", str="a"), dict(name="Tb", str="b"), dict(name="Tc", str="c"),
+             dict(name="Comma", str=","), dict(name="Num", str="")]
+    CURATED_DOCS.append((name, dict(rules=rules, terms=terms)))
+
+
+def _s(ref, op="", sep="", str_=False):
+    return dict(ref=ref, str=str_, op=op, sep=sep)
+
+
+_cd("sep_and_nosep", [dict(name="S", meta=NOMETA, alts=[dict(syms=[_s("Tb", "+"), _s("Tc"), _s("Tb", "+", "Comma")], meta=NOMETA)])])
+_cd("star_sep_and_plus", [dict(name="S", meta=NOMETA, alts=[dict(syms=[_s("Tb", "*", "Comma"), _s("Tc"), _s("Tb", "+")], meta=NOMETA)])])
+_cd("two_seps", [dict(name="S", meta=NOMETA, alts=[dict(syms=[_s("Tb", "+", "Comma"), _s("Ta"), _s("Tb", "+", "Tc")], meta=NOMETA)])])
+_cd("shared", [dict(name="S", meta=NOMETA, alts=[dict(syms=[_s("Tb", "*"), _s("Ta"), _s("Tb", "*")], meta=NOMETA),
+                                                 dict(syms=[_s("Tb", "+")], meta=NOMETA)])])
+_cd("rule_right_prod_left", [dict(name="E", meta=dict(NOMETA, assoc="right"),
+                                  alts=[dict(syms=[_s("E"), _s("Ta"), _s("E")], meta=dict(NOMETA, assoc="left")),
+                                        dict(syms=[_s("Num")], meta=NOMETA)])])
+_cd("rule_left_prod_right", [dict(name="E", meta=dict(NOMETA, assoc="left", prio=1),
+                                  alts=[dict(syms=[_s("E"), _s("Ta"), _s("E")], meta=dict(NOMETA, assoc="right", prio=2)),
+                                        dict(syms=[_s("E"), _s("Tb"), _s("E")], meta=NOMETA),
+                                        dict(syms=[_s("Num")], meta=NOMETA)])])
+_cd("rule_two_keys", [dict(name="E", meta=dict(NOMETA, assoc="right", prio=1),
+                           alts=[dict(syms=[_s("E"), _s("Ta"), _s("E")], meta=dict(NOMETA, prio=2)),
+                                 dict(syms=[_s("E"), _s("Tb"), _s("E")], meta=dict(NOMETA, assoc="left")),
+                                 dict(syms=[_s("Num")], meta=dict(NOMETA, nops=True))])])
+_cd("inline_sugar", [dict(name="S", meta=NOMETA, alts=[dict(syms=[_s("a", "*", "", True), _s("b", "?", "", True), _s("c", "", "", True)], meta=NOMETA)])])
+_cd("empty_mid", [dict(name="S", meta=NOMETA, alts=[dict(syms=[_s("Ta"), _s("EMPTY"), _s("Tb")], meta=NOMETA),
+                                                    dict(syms=[_s("EMPTY")], meta=NOMETA)])])
+
+
+def stage_builder(work, tier, seed):
+    """C09: rendered abstract documents -> grammar_json of the real builder -> Builder.BuilderDefects."""
+    import subprocess
+    docs = list(CURATED_DOCS)
+    n = 250 if tier == "quick" else 3000
+    for i in range(n):
+        docs.append(("doc:%d:%d" % (seed, i), random_doc(random.Random("doc-%d-%d" % (seed, i)))))
+    base = os.path.dirname(work.path("builder", "g", "x"))
+    reqs = []
+    meta = {}
+    for k, (did, doc) in enumerate(docs):
+        d = os.path.join(base, "d%d" % k)
+        os.makedirs(d, exist_ok=True)
+        gp = os.path.join(d, "g.rustemo")
+        text = render_doc(doc)
+        open(gp, "w").write(text)
+        reqs.append({"id": did, "grammar_path": gp, "settings": {"algo": "glr", "builder": "generic"},
+                     "out_dir": os.path.join(d, "out"), "out_dir_actions": os.path.join(d, "out"),
+                     "want_grammar": True})
+        meta[did] = (doc, text)
+    shards = [reqs[i::run.NCPU] for i in range(run.NCPU)]
+
+    def one(k):
+        if not shards[k]:
+            return []
+        cp = work.path("builder", "req%d.ndjson" % k)
+        op = work.path("builder", "res%d.ndjson" % k)
+        with open(cp, "w") as f:
+            for r in shards[k]:
+                f.write(json.dumps(r) + "\n")
+        r = subprocess.run([run.vhist_bin(), "batch", cp, op], capture_output=True, text=True,
+                           env=run.clean_env(), timeout=1800)
+        if r.returncode != 0:
+            raise run.ToolError("vhist batch failed: " + r.stderr[-300:])
+        return run.read_ndjson(op)
+    from concurrent.futures import ThreadPoolExecutor
+    with ThreadPoolExecutor(max_workers=run.NCPU) as ex:
+        results = [x for part in ex.map(one, range(run.NCPU)) for x in part]
+    recs = []
+    rejected = []
+    for r in results:
+        if "err" in r.get("g", {"err": 1}):
+            rejected.append((r["id"], r["g"].get("err"), r.get("msg", "")[:100]))
+            continue
+        recs.append({"id": r["id"], "doc": meta[r["id"]][0], "g": r["g"]})
+    envs = []
+    for k in range(run.NCPU):
+        part = recs[k::run.NCPU]
+        if not part:
+            continue
+        rp = work.path("builder", "recs%d.ndjson" % k)
+        with open(rp, "w") as f:
+            for x in part:
+                f.write(json.dumps(x) + "\n")
+        envs.append({"RECS": rp})
+    rs = run.run_tlc_shards(work, "CheckBuilder", "CheckBuilder.cfg", envs)
+    verdicts = [v for r in rs for v in r["verdicts"]]
+    nsugar = sum(1 for did, (doc, _) in meta.items() for r in doc["rules"] for a in r["alts"] for x in a["syms"] if x["op"])
+    return {"verdicts": [v for v in verdicts if v["bad"]], "gtext": {v["id"]: meta[v["id"]][1] for v in verdicts if v["bad"]},
+            "rejected": rejected[:20], "nrejected": len(rejected),
+            "states": sum(r["distinct"] for r in rs), "transitions": sum(r["states"] for r in rs),
+            "ncases": len(docs), "ntraces": len(verdicts), "nsugar_uses": nsugar,
+            "samples": [dict(id=did, text=meta[did][1]) for did in list(meta)[:40:15]]}
+
+
+STAGES = {"builder": stage_builder, "determinism": stage_determinism, "regen": stage_regen, "pipeline": stage_pipeline, "lex": stage_lex, "resolve": stage_resolve, "prec": stage_prec, "tables": stage_tables, "lr": stage_lr, "mci_lr": stage_mci_lr, "glr": stage_glr}
 
 
 # ---------------------------------------------------------------------------
@@ -1162,7 +1344,7 @@ def coverage(prop, res, stage_names):
                                                    "ntables", "maxlen", "wall", "nambiguous", "ninscope", "nlrglr",
                                                    "ncells_exercised", "ngrammars_with_conflicts",
                                                    "mc_lex_configurations", "mc_lex_ok", "nmulti_survivors",
-                                                   "outcomes", "mc_pipeline_ok", "mc_regen_ok", "nregenerations", "nkeys") if k in r}
+                                                   "outcomes", "mc_pipeline_ok", "mc_regen_ok", "nregenerations", "nkeys", "nsugar_uses", "nrejected") if k in r}
         cov["per_stage"][st]["divergences"] = len(r.get("divergences", []))
     cov["states"] = max(cov["states"], 1)
     cov["transitions"] = max(cov["transitions"], 1)
